@@ -38,6 +38,7 @@ type c17sess struct {
 	enc   xenc.Encoding // nil for US-ASCII
 	dec   vt.Decoder
 	entry string
+	ti    *terminfo.Terminfo // a description supplied by the caller instead of a built-in entry
 }
 
 // encodable reports whether the charset can represent r, and what the
@@ -63,6 +64,9 @@ func (s *c17sess) encodable(r rune) (rune, bool) {
 }
 
 func C17(r *core.Run) {
+	// the same check under East Asian ambiguous width (read once when the package is
+	// initialised, hence a child process): many runes, the ACS ones included, become two columns wide
+	defer r.ChildRun("east-asian-width", "RUNEWIDTH_EASTASIAN=1")
 	r.Rule = "real terminfo screens with LC_ALL selecting each stateless legacy charset (22) plus US-ASCII, on entries with an ACS map (xterm, vt220, linux, ansi) and without (sun, eterm); runes (quick: the glyph/fallback tables, Latin-1, box drawing, a stride of the BMP, CJK/emoji samples; thorough: every BMP rune of width>=1 plus samples above) are drawn as narrow, wide and base+combining content, 20 per screen row; the reference terminal decodes the output with its own decoder of the charset and the entry's acsc map, and each cell must show, in priority order: the rune itself, its ACS glyph, the registered fallback string, or '?', always filling the cell's width. CanDisplay(r,false/true) must agree. Histories of RegisterRuneFallback/UnregisterRuneFallback followed by a redraw. distinct = distinct (charset, entry, rune)."
 	r.Assumptions = []string{"x/text codecs define each charset; a rune counts as representable when the harness's encoder produces bytes that decode back", "A1-A4 of C01", "registered fallbacks are as wide as the cell or one column (padding demanded)"}
 	var sessions []c17sess
@@ -77,6 +81,16 @@ func C17(r *core.Run) {
 	}
 	for _, e := range entries {
 		sessions = append(sessions, c17sess{cs: "US-ASCII", lc: "C", dec: asciiDecoder, entry: e})
+	}
+	// a description supplied by the caller with an acsc map but no smacs/rmacs (PC consoles such as
+	// cons25: the glyph bytes are sent as they are)
+	if pc := Pristine("ansi"); pc != nil {
+		pc.Name, pc.Aliases = "pc-console-no-smacs", nil
+		pc.EnterAcs, pc.ExitAcs, pc.EnableAcs = "", "", ""
+		pc.AltChars = "l\xdam\xc0k\xbfj\xd9u\xb4t\xc3v\xc1w\xc2q\xc4x\xb3n\xc5a\xb0f\xf8g\xf1~\xf9h\xb1"
+		sessions = append(sessions, c17sess{cs: "US-ASCII", lc: "C", dec: asciiDecoder, entry: "pc-console-no-smacs", ti: pc})
+		// (only with the C locale: the glyph bytes are codes >= 0x80 of that terminal's single
+		// character set, which cannot at the same time be ISO 8859-x)
 	}
 	// rune set
 	var runes []rune
@@ -180,11 +194,15 @@ func C17(r *core.Run) {
 
 func c17session(r *core.Run, se c17sess, runes []rune) {
 	ti := Pristine(se.entry)
+	if se.ti != nil {
+		ti = CopyTI(se.ti)
+	}
 	const W, H = 40, 4
 	const perRow = W / 2
 	term := vt.New(W, H)
 	term.FFClears = strings.HasPrefix(ti.Name, "sun")
 	term.Acs = vt.BuildAcs(ti.AltChars)
+	term.AcsAlways = ti.AltChars != "" && ti.EnterAcs == ""
 	term.Dec = se.dec
 	glyphs := vt.AcsGlyphRunes(ti.AltChars)
 	tic := CopyTI(ti)
@@ -253,6 +271,10 @@ func c17session(r *core.Run, se c17sess, runes []rune) {
 					ok = true
 				}
 			}
+			if ok && w == 2 {
+				// (East Asian ambiguous width) the one-column glyph must fill the two-column cell
+				ok = c1 != nil && c1.R == ' ' && !c1.Cont
+			}
 		default:
 			ok = c0.R == wantR && len(c0.AcsSet) == 0 && !c0.Wide
 			if ok && w == 2 {
@@ -315,9 +337,38 @@ func c17session(r *core.Run, se c17sess, runes []rune) {
 		return true
 	}
 	s.Show()
+	// the very first registration change on this screen is the removal of a standard fallback
+	{
+		var firsts []rune
+		for rn := range tcell.RuneFallbacks {
+			_, hasAcs := glyphs[rn]
+			if _, enc := se.encodable(rn); !enc && !utf8 && !hasAcs && shadow.Width(rn) == 1 {
+				firsts = append(firsts, rn)
+			}
+		}
+		sort.Slice(firsts, func(i, j int) bool { return firsts[i] < firsts[j] })
+		if len(firsts) > 0 {
+			rn := firsts[int(r.Seed)%len(firsts)]
+			s.UnregisterRuneFallback(rn)
+			delete(fallbacks, rn)
+			s.SetContent(2, 1, rn, nil, tcell.StyleDefault)
+			s.Show()
+			checkCell(rn, nil, 2, 1, "after UnregisterRuneFallback as the first registration change on the screen")
+			s.RegisterRuneFallback(rn, tcell.RuneFallbacks[rn])
+			fallbacks[rn] = tcell.RuneFallbacks[rn]
+			s.Clear()
+			s.Show()
+			r.CaseN(1, 1)
+		}
+	}
 	n := int64(0)
 	for base := 0; base < len(runes); base += perRow * H {
 		batch := runes[base:min(base+perRow*H, len(runes))]
+		if (base/(perRow*H))%2 == 1 {
+			// every other batch is drawn over a screen full of other content
+			s.Fill('#', tcell.StyleDefault.Reverse(true))
+			s.Show()
+		}
 		s.Clear()
 		for i, rn := range batch {
 			x, y := (i%perRow)*2, i/perRow
